@@ -20,8 +20,8 @@ use crate::{
 // ------------------------------------------------------------------ tiny keyed type
 #[derive(Clone, Copy, PartialEq, Eq, Debug)]
 pub(crate) struct VKeyed {
-  k: u8,
-  v: u8,
+  pub(crate) k: u8,
+  pub(crate) v: u8,
 }
 impl Keyed for VKeyed {
   type K = u8;
@@ -30,9 +30,9 @@ impl Keyed for VKeyed {
   }
 }
 
-type Cache = DataSampleCache<VKeyed>;
+pub(crate) type Cache = DataSampleCache<VKeyed>;
 
-fn writer_guid(n: u8) -> GUID {
+pub(crate) fn writer_guid(n: u8) -> GUID {
   // struct literal: GuidPrefix::new has a 12-iteration copy loop
   GUID::new(
     GuidPrefix {
@@ -41,7 +41,7 @@ fn writer_guid(n: u8) -> GUID {
     EntityId::new([0, 0, n], EntityKind::WRITER_WITH_KEY_USER_DEFINED),
   )
 }
-fn writer_of(g: &GUID) -> u8 {
+pub(crate) fn writer_of(g: &GUID) -> u8 {
   g.prefix.bytes[0]
 }
 
@@ -52,7 +52,7 @@ pub(crate) enum Hist {
   KeepAll,
 }
 
-fn new_cache(h: Hist) -> Cache {
+pub(crate) fn new_cache(h: Hist) -> Cache {
   let mut qos = QosPolicies::qos_none();
   qos.history = match h {
     Hist::Unset => None,
@@ -62,7 +62,7 @@ fn new_cache(h: Hist) -> Cache {
   DataSampleCache::new(qos)
 }
 
-fn depth_of(h: Hist) -> Option<usize> {
+pub(crate) fn depth_of(h: Hist) -> Option<usize> {
   match h {
     Hist::Unset => Some(1),
     Hist::KeepLast(d) => Some(d as usize),
@@ -70,7 +70,7 @@ fn depth_of(h: Hist) -> Option<usize> {
   }
 }
 
-fn ts_of(j: usize) -> Timestamp {
+pub(crate) fn ts_of(j: usize) -> Timestamp {
   // receive timestamps: concrete, strictly increasing with the arrival index
   Timestamp::from_ticks(100 + j as u64)
 }
@@ -102,8 +102,14 @@ pub(crate) fn stub_sort_by_sequence_number<D: Keyed>(this: &DataSampleCache<D>, 
     let mut j = 1;
     while j < CAP {
       if j < n && sn[j] < sn[j - 1] {
-        sn.swap(j, j - 1);
-        keys.swap(j, j - 1);
+        // element-wise exchange (slice::swap goes through a byte-wise ptr::swap, after which CBMC no
+        // longer sees the concrete timestamps of a concrete selection)
+        let t = sn[j];
+        sn[j] = sn[j - 1];
+        sn[j - 1] = t;
+        let kt = keys[j].clone();
+        keys[j] = keys[j - 1].clone();
+        keys[j - 1] = kt;
       }
       j += 1;
     }
@@ -438,13 +444,13 @@ fn check_one(
   }
 }
 
-fn value_of(s: &Sample<VKeyed, u8>) -> (bool, u8, u8) {
+pub(crate) fn value_of(s: &Sample<VKeyed, u8>) -> (bool, u8, u8) {
   match s {
     Sample::Value(d) => (true, d.k, d.v),
     Sample::Dispose(k) => (false, *k, 0),
   }
 }
-fn value_of_ref(s: &Sample<&VKeyed, u8>) -> (bool, u8, u8) {
+pub(crate) fn value_of_ref(s: &Sample<&VKeyed, u8>) -> (bool, u8, u8) {
   match s {
     Sample::Value(d) => (true, d.k, d.v),
     Sample::Dispose(k) => (false, *k, 0),
@@ -944,4 +950,4 @@ fn next_sample_loop_view_state() {
   core::mem::forget(keys);
   core::mem::forget(c);
 }
-harness!(c08_next_sample_loop_view_state, next_sample_loop_view_state());
+harness!(c08_finding_view_state_backwards_symsn, next_sample_loop_view_state());
